@@ -33,7 +33,7 @@ RULE = (
     "fssim: phase A (fixed plans) = every save_* function x every registered format name plus an unknown name and inference "
     "from the extension x target state {absent, file, empty folder, non-empty folder} x allow_overwrite {unset, False, True} x "
     "fault {none, plugin raises at entry, first open fails, second open fails, torn file + crash}; phase B = seeded histories of "
-    "5-25 ops (SAVE, PROJECT_OPTIMIZE with colliding result names, IMPORT_DATA, GENERATE_*, PROJECT_CREATE, lookups, RESTART) with "
+    "5-25 ops (SAVE, PROJECT_OPTIMIZE with colliding result names, IMPORT_DATA, GENERATE_*, PROJECT_CREATE, lookups, RESTART, removal of an old run folder by the environment) with "
     "faults; distinct = digest of matrix cells / of (op-kind sequence, names, fault sites); non-trivial = an existing target or "
     "an earlier result was at stake (refusal or accumulation oracle evaluated) with at least one fault fired in the run, or a "
     "matrix cell whose target existed"
@@ -166,8 +166,11 @@ def generate(rng: random.Random, tier: str) -> dict:
             ops.append({"op": "GET_RESULT_PATH", "name": rng.choice(names), "run": rng.choice([None, 0, 1, 2, 7])})
         elif r < 0.90:
             ops.append({"op": "LOAD_RESULT", "name": rng.choice(names), "run": rng.choice([None, 0, 1]), "latest": rng.random() < 0.5})
-        elif r < 0.94:
+        elif r < 0.92:
             ops.append({"op": "RESULTS"})
+        elif r < 0.95:
+            # the environment: somebody removes an old (not the newest) run folder of a result
+            ops.append({"op": "DELETE_OLD_RUN", "name": rng.choice(names), "which": rng.randrange(4)})
         else:
             ops.append({"op": "RESTART"})
     return {"engine": NAME, "kind": "history", "ops": ops, "real_optimize": rng.random() < 0.15}
@@ -759,7 +762,13 @@ class Run:
             rec.violate("C18/run-number", "accumulation", f"{tag}: succeeded but no new result folder appeared (overwrote an old run?)")
             return
         if not ok and not fired:
-            key = "C18/run-number/name-contains-_run_" if any("_run_" in (b or "") for b in self.runs) else "C18/optimize-raises"
+            key = (
+                "C18/run-number/name-contains-_run_"
+                if isinstance(err, ValueError) and "invalid literal for int" in str(err)
+                else "C18/run-number/collides-with-existing-run"
+                if isinstance(err, FileExistsError)
+                else "C18/optimize-raises"
+            )
             rec.violate(key, "accumulation", f"{tag}: raised {type(err).__name__}: {err} without any injected fault")
             return
         if new_dirs:
@@ -906,6 +915,21 @@ class Run:
             rec.violate(key, "accumulation", f"complete run {base}_run_{want_nr:04d} does not load via {query!r}: {type(err).__name__}: {err}")
         else:
             rec.probe("earlier_run_loaded")
+
+    def op_delete_old_run(self, op, project, before):
+        base = op["name"] or "m"
+        known = self.runs.get(base) or {}
+        old = sorted(known)[:-1]
+        if not old:
+            self.rec.event(op="DELETE_OLD_RUN", outcome="skipped")
+            return
+        nr = old[op["which"] % len(old)]
+        folder = f"{base}_run_{nr:04d}"
+        shutil.rmtree(os.path.join(self.proj_dir, "results", folder), ignore_errors=True)
+        del known[nr]
+        self.run_files.pop(folder, None)
+        self.rec.event(op="DELETE_OLD_RUN", folder=folder)
+        self.rec.probe("gap_in_run_numbers")
 
     def op_results(self, op, project, before):
         rec = self.rec
